@@ -195,6 +195,9 @@ type recorder struct {
 	evs     []fsEvent
 	unit    time.Duration
 	variant int // which listeners are registered (see registered)
+	limit   int
+	cancel  context.CancelFunc
+	runaway atomic.Bool
 }
 
 // registered says whether the listener that produces event `name` is registered in this variant. Unregistered
@@ -220,7 +223,13 @@ func (r *recorder) registered(name string) bool {
 func (r *recorder) add(e fsEvent) {
 	r.mu.Lock()
 	r.evs = append(r.evs, e)
+	n := len(r.evs)
 	r.mu.Unlock()
+	if r.limit > 0 && n > r.limit && r.cancel != nil {
+		// runaway execution (far more events than the spec allows): stop it through its context so the run ends
+		r.runaway.Store(true)
+		r.cancel()
+	}
 }
 
 func (r *recorder) attempt(name string, layer int, a failsafe.ExecutionAttempt[string], x any) {
@@ -335,11 +344,20 @@ func condErr(v string) error {
 }
 
 // applyStrConds registers handle/abort/cancel conditions through the real builder methods.
-func applyStrConds(cs []cond, onErrs func(error), onResult func(string), onIf func(func(string, error) bool)) {
+func applyStrConds(cs []cond, onErrsV func(...error), onResult func(string), onIf func(func(string, error) bool)) {
+	// all error registrations go through ONE variadic call, as users write HandleErrors(a, b) / AbortOnErrors(a, b)
+	var errs []error
+	for _, c := range cs {
+		if c.T == "errors" {
+			errs = append(errs, condErr(c.V))
+		}
+	}
+	if len(errs) > 0 {
+		onErrsV(errs...)
+	}
 	for _, c := range cs {
 		switch c.T {
 		case "errors":
-			onErrs(condErr(c.V))
 		case "result":
 			onResult(mkString(c.V))
 		case "if":
@@ -376,8 +394,8 @@ func buildStack(stack []desc, unit time.Duration, rec *recorder) *builtStack {
 		switch d.K {
 		case "retry":
 			b := retrypolicy.Builder[string]().WithMaxRetries(d.Max)
-			applyStrConds(d.H, func(e error) { b.HandleErrors(e) }, func(r string) { b.HandleResult(r) }, func(f func(string, error) bool) { b.HandleIf(f) })
-			applyStrConds(d.A, func(e error) { b.AbortOnErrors(e) }, func(r string) { b.AbortOnResult(r) }, func(f func(string, error) bool) { b.AbortIf(f) })
+			applyStrConds(d.H, func(e ...error) { b.HandleErrors(e...) }, func(r string) { b.HandleResult(r) }, func(f func(string, error) bool) { b.HandleIf(f) })
+			applyStrConds(d.A, func(e ...error) { b.AbortOnErrors(e...) }, func(r string) { b.AbortOnResult(r) }, func(f func(string, error) bool) { b.AbortIf(f) })
 			if d.Rlf {
 				b.ReturnLastFailure()
 			}
@@ -428,7 +446,7 @@ func buildStack(stack []desc, unit time.Duration, rec *recorder) *builtStack {
 				b.WithSuccessThresholdRatio(c.Sthr, c.Scap)
 			}
 			b.WithDelay(time.Duration(c.Delay) * unit)
-			applyStrConds(d.H, func(e error) { b.HandleErrors(e) }, func(r string) { b.HandleResult(r) }, func(f func(string, error) bool) { b.HandleIf(f) })
+			applyStrConds(d.H, func(e ...error) { b.HandleErrors(e...) }, func(r string) { b.HandleResult(r) }, func(f func(string, error) bool) { b.HandleIf(f) })
 			if rec.registered("OnSuccess") {
 				b.OnSuccess(func(e failsafe.ExecutionEvent[string]) { rec.attempt("OnSuccess", evLayer, e, nil) })
 			}
@@ -481,7 +499,7 @@ func buildStack(stack []desc, unit time.Duration, rec *recorder) *builtStack {
 				rec.attempt("FallbackFn", evLayer, exec, nil)
 				return fr, fe
 			})
-			applyStrConds(d.H, func(e error) { b.HandleErrors(e) }, func(r string) { b.HandleResult(r) }, func(f func(string, error) bool) { b.HandleIf(f) })
+			applyStrConds(d.H, func(e ...error) { b.HandleErrors(e...) }, func(r string) { b.HandleResult(r) }, func(f func(string, error) bool) { b.HandleIf(f) })
 			if rec.registered("OnSuccess") {
 				b.OnSuccess(func(e failsafe.ExecutionEvent[string]) { rec.attempt("OnSuccess", evLayer, e, nil) })
 			}
@@ -524,7 +542,7 @@ func buildStack(stack []desc, unit time.Duration, rec *recorder) *builtStack {
 			p = b.Build()
 		case "hg":
 			b := hedgepolicy.BuilderWithDelay[string](time.Duration(d.Delay) * unit).WithMaxHedges(d.Maxh)
-			applyStrConds(d.C, func(e error) { b.CancelOnErrors(e) }, func(r string) { b.CancelOnResult(r) }, func(f func(string, error) bool) { b.CancelIf(f) })
+			applyStrConds(d.C, func(e ...error) { b.CancelOnErrors(e...) }, func(r string) { b.CancelOnResult(r) }, func(f func(string, error) bool) { b.CancelIf(f) })
 			if rec.registered("OnHedge") {
 				b.OnHedge(func(e failsafe.ExecutionEvent[string]) { rec.attempt("OnHedge", evLayer, e, nil) })
 			}
@@ -578,7 +596,10 @@ func replaySeq(b fsBehaviour, unit time.Duration, entry int, variant int) (mis [
 		rec.evs = nil
 		calls := 0
 		var verdicts []string
-		ex := failsafe.NewExecutor[string](bs.policies...).WithContext(ctxFor(want.Ck))
+		xctx, xcancel := context.WithCancel(ctxFor(want.Ck))
+		rec.limit, rec.cancel = 20*len(want.Ev)+200, xcancel
+		rec.runaway.Store(false)
+		ex := failsafe.NewExecutor[string](bs.policies...).WithContext(xctx)
 		if rec.registered("ExecOnSuccess") {
 			ex = ex.OnSuccess(func(e failsafe.ExecutionDoneEvent[string]) {
 				verdicts = append(verdicts, "success")
@@ -645,7 +666,12 @@ func replaySeq(b fsBehaviour, unit time.Duration, entry int, variant int) (mis [
 		if len(got) > 0 {
 			nontrivial = nontrivial || calls != 1 || len(got) > 4
 		}
+		xcancel()
 		// ---- compare ----
+		if rec.runaway.Load() {
+			add(xi, "calls", "", "runaway execution: more than %d listener calls (spec %d), stopped through its context", rec.limit, len(want.Ev))
+			continue
+		}
 		if calls != want.Calls {
 			add(xi, "calls", "", "function invoked %d times, spec %d", calls, want.Calls)
 		}
